@@ -9,7 +9,7 @@ LEVEL = "fault_enumeration"
 RULE = (
     "fault enumeration: for each random history H (5..15 steps, C11 alphabet) and each query step s that performs "
     "N >= 1 solver checks in a clean run (counted by a wrapper substituted for backend_z3.z3_solver_sat), and for "
-    "every k in 1..N, H is re-run up to s on a fresh solver and the k-th check of step s is made to give up - in two "
+    "every k in 1..N (a sample of the positions when N is large, see the end), H is re-run up to s on a fresh solver and the k-th check of step s is made to give up - in two "
     "ways: (a) for real, by setting the Z3 solver's resource limit to 1 around that one check so that Z3 itself "
     "answers unknown, (b) by raising ClaripySolverInterruptError('timeout') from the check.  Monitor: the faulted "
     "call must raise a ClaripyError subclass (returning an answer or raising anything else is a violation); all "
